@@ -116,6 +116,22 @@ def gen_cases(rng, tier):
     pool = [gen_model(rng, i + j) for j in range(rng.choice([2, 3, 4]))]
     nops = rng.randint(10, 60)
     cases.append({"kind": "history", "pool": pool, "nops": nops, "seed": rng.randrange(1 << 30)})
+  # API usage variant: ONE parsed ConfigParser object reused for several outputs (read_from_parser twice, filtered
+  # views of it created and tabulated in between): every output equals what a fresh process gives for that model
+  npr = 14 if tier == "quick" else 160
+  for i in range(npr):
+    m = gen_model(rng, [0, 1, 2, 3][i % 4], "potable")["model"]
+    sp = []
+    for key in ("pair", "embed", "density"):
+      for ent in m.get(key) or []:
+        for x in ent[:-1]:
+          if x not in sp:
+            sp.append(x)
+    views = [None]
+    for _ in range(rng.randint(1, 3)):
+      views.append({"S": rng.sample(sp, rng.randint(1, len(sp))), "exclude": rng.random() < 0.5})
+    ops = [rng.randrange(len(views)) for _ in range(rng.randint(4, 9))]
+    cases.append({"kind": "parser_reuse", "model": m, "views": views, "ops": ops})
   ns = 12 if tier == "quick" else 120
   for i in range(ns):
     if i % 2 == 0:
@@ -323,6 +339,48 @@ def run_hashseed(case, ctx):
     ctx.cls("several_zero_filled_species")
 
 
+def run_parser_reuse(case, ctx):
+  from checks import c13
+  from atsim.potentials.config import ConfigParser, FilteredConfigParser, Configuration
+  m = case["model"]
+  ctx.cls("target:" + m["target"])
+  edited = [m if v is None else c13.edit_model(m, v["S"], v["exclude"])[0] for v in case["views"]]
+  try:
+    can = [run_canon({"models": [{"model": e, "route": "potable"}], "evals": []})["bytes"][0] for e in edited]
+  except Exception as e:
+    ctx.violation("HARNESS_ERROR", str(e), what="canon")
+    return
+  cp = ConfigParser(io.StringIO(emit.model_text(m)))
+  objs = {}
+  n = 0
+  for k, vi in enumerate(case["ops"]):
+    v = case["views"][vi]
+    if vi not in objs:
+      objs[vi] = cp if v is None else (FilteredConfigParser(cp, exclude=v["S"]) if v["exclude"] else FilteredConfigParser(cp, include=v["S"]))
+    try:
+      out = routes.write_tab(Configuration().read_from_parser(objs[vi]))
+      out = (out if isinstance(out, bytes) else out.encode())
+      got = None
+    except Exception as e:
+      got = "ERR:%s" % type(e).__name__
+    if can[vi].startswith("ERR"):
+      ctx.count("model_out_of_domain")
+      if got is None or not can[vi].startswith(got):
+        ctx.violation("reuse_differs", "op %d: fresh process fails (%s) but the reused parser gives %s" % (k, can[vi][:80], got or "output"), what="reuse_differs")
+        return
+      continue
+    if got is not None:
+      ctx.violation("reuse_differs", "op %d (view %s): %s from the reused parser; a fresh process tabulates the hand-deleted file" % (k, v, got), what="reuse_differs")
+      return
+    ctx.count("writes_compared")
+    n += 1
+    if not compare_bytes(ctx, m["target"], out, bytes.fromhex(can[vi]), "reuse_differs", "op %d of %s: view %s of one parsed file (views %s)" % (k, case["ops"], v, case["views"])):
+      return
+  ctx.nontrivial(n >= 3 and len(set(case["ops"])) >= 2)
+
+
 def run_case(case, ctx):
   ctx.cls("kind:" + case["kind"])
+  if case["kind"] == "parser_reuse":
+    return run_parser_reuse(case, ctx)
   return run_history(case, ctx) if case["kind"] == "history" else run_hashseed(case, ctx)
